@@ -235,7 +235,12 @@ def invert(W, copy=True):
     W : np.ndarray
         inverted connectivity matrix
     '''
-    if copy:
+    if not np.issubdtype(W.dtype, np.inexact):
+        # integer / bool arrays cannot hold the reciprocals (they would be truncated to 0)
+        if not copy:
+            raise BCTParamError('invert(copy=False) needs a floating-point array')
+        W = W.astype(float)
+    elif copy:
         W = W.copy()
     E = np.where(W)
     W[E] = 1. / W[E]
